@@ -340,14 +340,19 @@ func init() {
 		ops := evidenceReadOps()
 		k1 := fixtures.Get("ES256", 1)
 		seeds := c02Claims()
-		var toks, derToks [][]byte
+		var toks, derToks, unprotToks [][]byte
 		for ci := range seeds {
 			sd := c02MakeSeed("ES256", 1, ci)
 			toks = append(toks, sd.tok)
 			derToks = append(derToks, envelope(sd.view.prot, mcbor.M(), sd.view.payload, rawSignDER(k1, "ES256", sd.view.prot, sd.view.payload)))
+			unprotToks = append(unprotToks, envelope(nil, mcbor.M(mcbor.U(1), mcbor.I(-7)), sd.view.payload, rawSign(k1, "ES256", nil, sd.view.payload)))
+		}
+		nKinds := 5
+		if _, err := psatoken.DecodeEvidenceFromCOSE(append([]byte{}, unprotToks[0]...)); err != nil {
+			nKinds = 4 // not decodable at all: nothing to observe
 		}
 		return func(c *choice.Ctx) {
-			kind := c.Choose("kind", 4) // 0 decoded, 1 signing, 2 decoded from a token whose signature is broken, 3 ... is in ASN.1 DER form
+			kind := c.Choose("kind", nKinds) // 0 decoded, 1 signing, 2 decoded from a token whose signature is broken, 3 ... is in ASN.1 DER form, 4 empty protected header with the algorithm in the unprotected one
 			ci := c.Choose("claims", len(seeds))
 			i1 := c.Choose("op1", len(ops))
 			if !c18Mine(kind*7 + ci*3 + i1) {
@@ -358,6 +363,12 @@ func init() {
 				switch kind {
 				case 0:
 					ev, err := psatoken.DecodeEvidenceFromCOSE(append([]byte{}, toks[ci]...))
+					if err != nil {
+						panic(choice.HarnessError{Msg: err.Error()})
+					}
+					return ev
+				case 4:
+					ev, err := psatoken.DecodeEvidenceFromCOSE(append([]byte{}, unprotToks[ci]...))
 					if err != nil {
 						panic(choice.HarnessError{Msg: err.Error()})
 					}
@@ -471,6 +482,88 @@ func init() {
 			}
 		}, nil
 	}
+	// the caller's buffer refilled with another input of the same length and presented to the SAME object again:
+	// nothing may be remembered about (or through) the buffer
+	Scenarios["c18.buffer-reuse"] = func() (choice.Scenario, func() any) {
+		k1 := fixtures.Get("ES256", 1)
+		a1 := *c02Claims()[0]
+		a2 := a1
+		a2.ImplID, a2.ClientID = bp(pat(32, 0x77)), i32p(2)
+		mkTok := func(a *refmodel.Claims) []byte {
+			prot := protHeader("ES256")
+			pl := mcbor.Encode(wireTree(a, true))
+			return envelope(prot, mcbor.M(), pl, rawSign(k1, "ES256", prot, pl))
+		}
+		t1, t2 := mkTok(&a1), mkTok(&a2)
+		c1, c2 := mcbor.Encode(wireTree(&a1, true)), mcbor.Encode(wireTree(&a2, true))
+		j1, j2 := wireJSON(&a1), wireJSON(&a2)
+		return func(c *choice.Ctx) {
+			if !c18Mine(0) {
+				return
+			}
+			entry := c.Choose("entry", 3)
+			between := c.Choose("between", 3) // 0 nothing, 1 Verify/Validate, 2 getters
+			want := expectedVector(&a2)
+			c18stats.StateStr(fmt.Sprint("buffer-reuse", entry, between))
+			c18stats.Trans.Add(2)
+			switch entry {
+			case 0:
+				if len(t1) != len(t2) {
+					panic(choice.HarnessError{Msg: "c18.buffer-reuse: tokens differ in length"})
+				}
+				buf := append([]byte{}, t1...)
+				ev := &psatoken.Evidence{}
+				if ev.UnmarshalCOSE(buf) != nil {
+					return
+				}
+				switch between {
+				case 1:
+					_ = ev.Verify(k1.Pub)
+				case 2:
+					_ = getterVector(ev.Claims)
+				}
+				copy(buf, t2)
+				if err := ev.UnmarshalCOSE(buf); err != nil {
+					c.Failf("C18:buffer-reuse:Evidence.UnmarshalCOSE:error", "%v", err)
+				} else if g := getterVector(ev.Claims); g != want {
+					c.Failf("C18:buffer-reuse:Evidence.UnmarshalCOSE:claims", "the second token (same buffer, same length) was decoded as\n got  %s\n want %s", g, want)
+				} else if err := ev.Verify(k1.Pub); err != nil {
+					c.Failf("C18:buffer-reuse:Evidence.UnmarshalCOSE:verify", "%v", err)
+				}
+			case 1, 2:
+				in1, in2 := c1, c2
+				if entry == 2 {
+					in1, in2 = j1, j2
+				}
+				if len(in1) != len(in2) {
+					panic(choice.HarnessError{Msg: "c18.buffer-reuse: inputs differ in length"})
+				}
+				buf := append([]byte{}, in1...)
+				cl, _ := psatoken.NewClaims(refmodel.P2Name)
+				um := func() error {
+					if entry == 2 {
+						return cl.(interface{ UnmarshalJSON([]byte) error }).UnmarshalJSON(buf)
+					}
+					return cl.(interface{ UnmarshalCBOR([]byte) error }).UnmarshalCBOR(buf)
+				}
+				if um() != nil {
+					return
+				}
+				switch between {
+				case 1:
+					_ = cl.Validate()
+				case 2:
+					_ = getterVector(cl)
+				}
+				copy(buf, in2)
+				if err := um(); err != nil {
+					c.Failf(fmt.Sprintf("C18:buffer-reuse:claims-method-%d:error", entry), "%v", err)
+				} else if g := getterVector(cl); g != want {
+					c.Failf(fmt.Sprintf("C18:buffer-reuse:claims-method-%d:claims", entry), "got  %s\nwant %s", g, want)
+				}
+			}
+		}, nil
+	}
 	Checks["C18"] = func(r *evid.Run) {
 		n := 16
 		if !instrOn {
@@ -499,6 +592,7 @@ func init() {
 		dl := deadline(r, 50*time.Second, 15*time.Minute)
 		exploreChoiceOpts(r, "c18.evidence", -1, dl, 1)
 		exploreChoiceOpts(r, "c18.alias", -1, dl, 1)
+		exploreChoiceOpts(r, "c18.buffer-reuse", -1, dl, 1)
 		b := 3 // construction/op1/op2 are choices too: bound 3 = every op pair on the baseline object + every single op on every 1-deviation object
 		if thorough(r) {
 			b = 4
